@@ -188,6 +188,51 @@ func (e *Engine) evalRule(r *StructRule) []*Obligation {
 			out = append(out, e.structObl(r, fnk, ok, msg))
 		}
 		return out
+	case "no_calls":
+		// no_calls from=REGEXP to=F,G,.. : no function of the package whose key matches REGEXP calls
+		// (directly, or through a function literal inside it) any of the listed functions.
+		var out []*Obligation
+		fromRe, err := regexp.Compile("^(" + strings.Join(ruleOpt(r, "from"), ",") + ")$")
+		if err != nil {
+			return []*Obligation{e.structObl(r, "from", false, err.Error())}
+		}
+		to := map[*ssa.Function]bool{}
+		for _, t := range ruleOpt(r, "to") {
+			if f := e.funcs[r.Pkg+"::"+t]; f != nil {
+				to[f] = true
+			} else {
+				out = append(out, e.structObl(r, t, false, "function not found"))
+			}
+		}
+		matched := 0
+		for _, fn := range e.pkgFunctions(r.Pkg) {
+			root := fn
+			for root.Parent() != nil {
+				root = root.Parent()
+			}
+			if !fromRe.MatchString(e.fnKey[root]) {
+				continue
+			}
+			if fn == root {
+				matched++
+			}
+			for _, b := range fn.Blocks {
+				for _, in := range b.Instrs {
+					if ci, ok := in.(ssa.CallInstruction); ok {
+						if cal := ci.Common().StaticCallee(); cal != nil && to[cal] {
+							out = append(out, e.structObl(r, e.fnKey[fn]+"->"+cal.Name(), false, "forbidden call"))
+						}
+					}
+				}
+			}
+		}
+		if matched == 0 {
+			out = append(out, e.structObl(r, "from", false, "no function matches"))
+		}
+		if len(out) == 0 {
+			out = append(out, e.structObl(r, "all", true, fmt.Sprintf("%d functions checked, none calls the %d listed functions", matched, len(to))))
+		}
+		return out
 	case "decode_cells":
 		return e.ruleDecodeCells(r)
 	case "callers":
